@@ -125,6 +125,12 @@ func InvokePayload(method string, args ...*pb.Arg) []byte {
 	return mustMarshal(td.Marshal())
 }
 
+// InvokePayloadBytes marshals just pb.InvokePayload{method,args} (what an XVM call carries as TransactionData.Payload).
+func InvokePayloadBytes(method string, args ...*pb.Arg) []byte {
+	pl := &pb.InvokePayload{Method: method, Args: args}
+	return mustMarshal(pl.Marshal())
+}
+
 // InvokeTx builds a BVM contract invocation.
 func (n *Node) InvokeTx(from *Account, contract *types.Address, method string, args ...*pb.Arg) pb.Transaction {
 	return n.sign(from, contract, InvokePayload(method, args...), nil)
